@@ -12,13 +12,13 @@ REQUIRED_THEOREMS = ["Gv.Props.C01." + n for n in [
     "three_frames_same_count_iff",
     # names stay pairwise distinct unless the caller edits names
     "step_names_nodup", "run_names_nodup",
-    # refinement: Go-shaped container = plain list reference model, all 24 operations, all histories
-    "step_refines", "run_refines", "good_of_empty_bag", "good_of_empty_align", "obs_byName", "obs_idByName", "obs_length"]]
+    # refinement: Go-shaped container = plain list reference model, all 28 operations, all histories
+    "step_refines", "run_refines", "compress_empty_unchanged", "good_of_empty_bag", "good_of_empty_align", "obs_byName", "obs_idByName", "obs_length"]]
 LEVEL_TEXT = ("Lean theorems, all by induction over operation histories of any length and for arbitrary arguments: "
-              "(1) refinement `step_refines` / `run_refines`: for each of the 24 operations of the history language (add under the "
+              "(1) refinement `step_refines` / `run_refines`: for each of the 28 operations of the history language (add under the "
               "three duplicate-name policies, ignore, clear, append, concat, rename, appendId, cleanNames, trimNames, trimAuto, sort, "
               "permute=ShuffleSequences, filter, dedup, rmSeqs/RemoveGapSeqs, translate, clone, sample, toUpper, toLower, replace, "
-              "setChar, trimSeqs, autoAlpha), whenever the plain list-of-(name,sequence) reference model specifies the outcome, the "
+              "setChar, trimSeqs, autoAlpha, revcomp=ReverseComplement, replaceChar, rmGapSites=RemoveGapSites, compress=Compress), whenever the plain list-of-(name,sequence) reference model specifies the outcome, the "
               "implementation-shaped model (ordered rows with pointer ids + separate name index + allocation counter + cached "
               "alignment length) yields exactly that content (names, row order, residues, policy, alphabet, kind) and that status, and "
               "the strong invariant (index exact and pointing to the first row of each name, rectangular, alphabet never BOTH) holds "
@@ -35,7 +35,7 @@ LEVEL_TEXT = ("Lean theorems, all by induction over operation histories of any l
 LEVEL_NOTE = ("Trusted: Lean kernel; harness/oracle/driver; the hand-written model of seqbag.go/align.go is validated against the "
               "implementation on generated histories only; regexp (CleanNames is modelled directly), fmt, sort.SliceStable, math/rand "
               "(replica) are external.")
-TECHNIQUE = "Lean 4 proof (refinement of the Go-shaped container to a plain-list reference model for all 24 operations, representation / rectangularity / distinct-names invariants, all by induction over histories) + differential correspondence"
+TECHNIQUE = "Lean 4 proof (refinement of the Go-shaped container to a plain-list reference model for all 28 operations, representation / rectangularity / distinct-names invariants, all by induction over histories) + differential correspondence"
 RULE = ("random histories of 1..12 (quick) / 1..40 (thorough) operations over alignments (0..5 rows x 0..8 columns) and "
         "sequence sets with ragged lengths, duplicate names, special characters in names, all three duplicate-name policies, "
         "boundary arguments; the full observation vector is compared after every operation; non-trivial = at least two "
@@ -49,9 +49,10 @@ PARTIAL = ["the refinement theorem claims the outcome of a step only where the r
            "ShuffleSequences / Sample are modelled with their permutation supplied (Op.permute / Op.sample; the theorems assume it is a "
            "genuine permutation of the positions, `OpWF`/`OpWFR`); in the correspondence the oracle resolves it with the Go math/rand "
            "replica of C10 (that the replica's shuffle is a permutation for every seed is C10.shuffle_every_seed)",
-           "the history language (Lean `Op`, oracle decoder, generator) has 24 operations; RenameRegexp, the site removals, Compress, "
-           "Unalign, ReplaceChar and ReverseComplement listed in DESIGN section 5 for C01 are not among them (the harness has entry "
-           "points for them, the Lean model and the theorems do not cover them)"]
+           "the history language (Lean `Op`, oracle decoder, generator) has 28 operations (ReverseComplement, ReplaceChar, "
+           "RemoveGapSites and Compress were added through the C06 / C12 / C13 models); RenameRegexp and Unalign (which returns "
+           "another container) are not among them (the harness has entry points for them, the Lean model and the theorems do not "
+           "cover them)"]
 
 NAMES = ["a", "b", "c", "d", "Seq0000", "Seq0001", "a_0001", "x y", " lead", "n(1)", "p:q", "k,l", "t;u", "e.f", "long_name_here", "A"]
 NT = "ACGTacgtNn-RYK*?."
@@ -160,8 +161,12 @@ def gen_hist(rng, maxops):
         elif k < 0.95:
             ops.append("setchar:%d:%d:%s" % (rng.randint(-1, 5), rng.randint(-1, 8), rng.choice("ACGT-N")))
             changing += 1
-        else:
+        elif k < 0.97:
             ops.append("trimseqs:%d:%d" % (rng.choice([-1, 0, 1, 2, curL[0], curL[0] + 1]), rng.randint(0, 1)))
+            changing += 1
+        else:
+            ops.append(rng.choice(["revcomp", "compress", "rmgapsites:%s:%d" % (rng.choice(["0", "1", "1/2", "1/3", "2/3"]), rng.randint(0, 1)),
+                                   "replacechar:%s:%d:%s" % (pct(rng.choice(pool + ["zz"])), rng.randint(-1, 8), rng.choice("ACGT-N"))]))
             changing += 1
     return Case("hist", [kind, alpha_id, prow(rows), ";".join(ops) if ops else "_"], changing >= 2, "hist-" + kind)
 
@@ -206,9 +211,33 @@ def gen_alias(rng):
     return Case("hist", ["A", 1, prow(rows), ";".join(ops)], True, "hist-alias")
 
 
+def gen_columns(rng):
+    """histories around the column operations added to the language: ReverseComplement, ReplaceChar, RemoveGapSites,
+    Compress - mixed with operations that empty, rebuild or rename the container"""
+    alpha_id = rng.choice([1, 1, 1, 0])
+    alpha = "ACGTacgtNRY-" if alpha_id == 1 else "ARNDCQEGX-"
+    L = rng.choice([1, 2, 3, 5, 8])
+    pool = rng.sample(NAMES, 4)
+    nrows = rng.choice([0, 1, 2, 3, 4])
+    cols = ["".join(rng.choice(alpha + "-" * rng.choice([0, 6])) for _ in range(nrows)) for _ in range(L)]
+    if cols and rng.random() < 0.5:
+        cols = [rng.choice(cols) for _ in range(L)]      # repeated columns
+    rows = [(pool[i], "".join(c[i] for c in cols)) for i in range(nrows)]
+    ops = []
+    for _ in range(rng.randint(1, 6)):
+        ops.append(rng.choice([
+            "revcomp", "compress", "compress", "rmgapsites:%s:%d" % (rng.choice(["0", "1", "1/2", "1/3"]), rng.randint(0, 1)),
+            "replacechar:%s:%d:%s" % (pct(rng.choice(pool + ["zz"])), rng.randint(-1, L), rng.choice("ACGT-Nn*")),
+            "clear", "add:%s:%s" % (pct(rng.choice(pool)), rseq(rng, alpha, rng.choice([L, L, 1, 2]))), "toupper", "sort",
+            "dedup:0", "filter:0:100", "trimseqs:1:%d" % rng.randint(0, 1), "autoalpha"]))
+    return Case("hist", ["A", alpha_id, prow(rows), ";".join(ops)], True, "hist-columns")
+
+
 def _gen_core(rng, tier):
     for _ in range(150 if tier == "quick" else 1500):
         yield gen_alias(rng)
+    for _ in range(300 if tier == "quick" else 3000):
+        yield gen_columns(rng)
     n = 1500 if tier == "quick" else 15000
     maxops = 12 if tier == "quick" else 40
     for _ in range(n):
